@@ -3,7 +3,9 @@
 (* Acceptor (role A) for C08.  One event per report value instantiated     *)
 (* with concrete strings:                                                  *)
 (*  {id, pretty_valid, compact_valid, same_parse, orig, doc, back,          *)
-(*   rewrite_same, exc}                                                     *)
+(*   rewrite_same, guard, exc}                                              *)
+(* guard = what ReportReader.get_report_version says of the pretty and of   *)
+(* the compact document (the version guard of report / findings / the cache)*)
 (* orig = projection of the Report object, doc = projection of the parsed  *)
 (* document, back = projection of the Report read back from it (strings    *)
 (* abstracted to class ids / "other:..." by the harness).                  *)
@@ -20,6 +22,7 @@ Clause(c) ==
     [] ~c.same_parse -> "PrettyAndCompactParseToTheSameValue"
     [] FirstFailingLaw(c.orig, c.doc) # "none" -> "Document:" \o FirstFailingLaw(c.orig, c.doc)
     [] FirstFailingLaw(c.orig, c.back) # "none" -> FirstFailingLaw(c.orig, c.back)
+    [] c.guard # <<c.orig.version, c.orig.version>> -> "VersionGuardReadsTheWrittenVersion"
     [] ~c.rewrite_same -> "RewriteReproducesTheDocument"
     [] OTHER -> "none"
 
